@@ -46,8 +46,11 @@ def check(ctx):
     fi = P.func("padding:_pad_face_connections")
     check_link_cells(ctx, P, (None,), rule_of=lambda r: RULE_MAP.get(r, r))
     check_single_links(ctx, P, (None,), rule_of=lambda r: RULE_MAP.get(r, r))
-    _check_prepad_and_trim(ctx, P, fi, rule="R03.2")
-    _check_open_edges(ctx, P, fi, rule="R03.2")
+    for sub in (_check_prepad_and_trim, _check_open_edges):
+        try:
+            sub(ctx, P, fi, rule="R03.2")
+        except Unmodelled as e:  # a lineage the normal form cannot read: no verdict for that rule, never a crash
+            ctx.unknown("R03.2", sub.__name__.strip("_"), str(e))
     _ring(ctx, P, fi)
     _wiring(ctx, P)
 
